@@ -125,11 +125,22 @@ Theorem C15_wire_roundtrip_any_order : forall d d',
 Proof. exact wire_roundtrip_any_order. Qed.
 Print Assumptions C15_wire_roundtrip_any_order.
 
+(* equivalent descriptors fit the wire widths together, so the premises speak about d only *)
+Theorem C15_fdesc_wf_equiv : forall a b, fdesc_equiv a b -> wf (enc_fdesc a) -> wf (enc_fdesc b).
+Proof. exact fdesc_wf_equiv. Qed.
+Print Assumptions C15_fdesc_wf_equiv.
+
+Theorem C15_meta_roundtrip_any_order : forall d d' rest,
+  fdesc_ok d = true -> wfb (enc_fdesc d) = true -> fdesc_equiv d d' ->
+  exists d'', meta_unmarshal (meta_marshal d' ++ rest) = Some d'' /\ fdesc_equiv d'' d.
+Proof. exact meta_roundtrip_any_order. Qed.
+Print Assumptions C15_meta_roundtrip_any_order.
+
 Theorem C15_marshal_roundtrip_any_order : forall (zip : bytes -> bytes) (unzip : bytes -> option bytes),
   (forall x, unzip (zip x) = Some x) ->
-  forall d d', fdesc_ok d = true -> fdesc_equiv d d' -> wfb (enc_fdesc d') = true ->
+  forall d d', fdesc_ok d = true -> wfb (enc_fdesc d) = true -> fdesc_equiv d d' ->
   exists d'', unmarshal unzip (marshal zip d') = Some d'' /\ fdesc_equiv d'' d.
-Proof. exact marshal_roundtrip_any_order. Qed.
+Proof. exact marshal_roundtrip_every_order. Qed.
 Print Assumptions C15_marshal_roundtrip_any_order.
 
 (* every descriptor GetFileDescriptor builds is in the domain of the round trip *)
